@@ -348,6 +348,11 @@ def rule_attack_multiplicity(ctx):
         has_from = any(callee_matches(callee_of(s), r"AAFramework::iter_attacks_from$") for x in bodies for s in x.calls())
         if has_to and has_from:
             fns.append(b)
+    entry = [b for b in prog.lib_bodies() if b.kind != "closure" and b.path.startswith("utils::grounded_extension_computer::") and prog.callers_of(b) and any(not c.body.path.startswith("utils::grounded_extension_computer::") for c in prog.callers_of(b))]
+    for e in entry:
+        for x in prog.reachable_from([e], virtual_dispatch=False).values():
+            if x.kind != "closure" and x.path.startswith("utils::grounded_extension_computer::") and x not in fns:
+                fns.append(x)
     if not r.require_anchor(fns, "a function in utils:: that iterates both iter_attacks_to and iter_attacks_from (the grounded propagation)"):
         return
     n_init = n_dec = 0
@@ -409,7 +414,7 @@ def rule_attack_multiplicity(ctx):
     r.floor(n_dec, 1, "counter decrements")
 
 
-def _decrement_iteration(prog, b, site):
+def _decrement_iteration(prog, b, site, _depth=0):
     """the decrement site lies in a closure handed to for_each over an unfiltered iter_attacks_from,
     or inside a loop driven by Iterator::next of one"""
     if b.kind == "closure" and b.parent:
@@ -432,4 +437,11 @@ def _decrement_iteration(prog, b, site):
                         if ok:
                             return True, ""
             return False, "in a loop that is not driven by an unfiltered iter_attacks_from"
+    # a helper that lowers one counter per call: judged where it is called
+    if b.kind != "closure" and _depth < 3:
+        cs = prog.callers_of(b)
+        if cs:
+            res = [_decrement_iteration(prog, c.body, c, _depth + 1) for c in cs]
+            bad = [w for ok, w in res if not ok]
+            return (True, "") if not bad else (False, bad[0] + " (at a call of %s)" % b.path.rsplit("::", 1)[-1])
     return False, "outside any iteration over iter_attacks_from"
